@@ -124,8 +124,8 @@ pub fn gen_case(seed: u64, k: u64) -> Case {
         seed: rng::derive(seed, "c20.sched", k),
         entropy_seed: rng::derive(seed, "c20.entropy", k),
         knobs,
-        delay_us: *r.pick(&[0u64, 0, 1_000, 10_000, 49_000, 50_000, 51_000, 200_000])
-            + r.below(1000) as u64
+        // (S17: the shutdown follows the edit at once in two runs of three - the launch is to be still in flight)
+        delay_us: if cell / N_VARIANTS == 17 && r.below(3) != 0 { 0 } else { *r.pick(&[0u64, 0, 1_000, 10_000, 49_000, 50_000, 51_000, 200_000]) + r.below(1000) as u64 }
             // the editor sat open for a while in this state before it was closed (only in states in which the
             // server has nothing to compute, so that the time costs the simulation next to nothing)
             + if matches!(cell / N_VARIANTS, 0 | 1 | 3 | 4 | 5 | 6 | 7 | 8 | 9 | 14) && r.below(3) == 0 {
@@ -452,8 +452,12 @@ pub fn scenario(case: &Case, slot: &Arc<StdMutex<Option<Verdict>>>) {
     }
     v.state_reached = setup.is_ok() && reach_state(state, case.seed, &mut dap, &mut v.notes);
     if state == 17 {
-        let edited = format!("{}\n// edited\n", program_of(state));
-        let _ = lsp.did_change(&format!("{}/main.asm", WS), &edited);
+        // 1-3 edits in a row (typing): the analyses of all of them hold the context the launch is waiting for
+        let n_edits = 1 + mos_simrt::rng::derive(case.seed, "c20.s17.edits", 0) % 3;
+        for e in 0..n_edits {
+            let edited = format!("{}\n// edited {}\n", program_of(state), e);
+            let _ = lsp.did_change(&format!("{}/main.asm", WS), &edited);
+        }
     }
     hist(
         "harness",
